@@ -68,7 +68,8 @@ CHECKS = {
         quick=dict(runs=480, wall=90), thorough=dict(runs=40000, wall=1200),
         rule="one evaluation = one chansim history (all channel types, both openers, dust and non-dust HTLCs both ways, duplicates, fee changes, optionally cuts with reloads, revocation log with or without amount data); every commitment a side revokes is kept as the real transaction (plus its signed second-level HTLC transactions); then, from a RELOADED COPY of the victim's database only, a seeded sample (thorough: up to 12 per check point) of revoked heights is pushed through the real chainWatcher (state-hint decoding, breach recognition), NewBreachRetribution with and without the spend tx, the real breach arbitrator's newRetributionInfo/createJusticeTx (all variants, and after the cheater advanced an HTLC to the second level), and every justice input is executed in btcd's script engine against the real revoked outputs. non-trivial = at least one revoked height checked; distinct = distinct trace hash",
         expected_probes=["probe_second_level_revoke", "probe_taproot_justice", "probe_justice_with_htlcs", "probe_retribution_without_spendtx", "probe_revlog_without_amounts",
-                         "probe_retribution_store_round_trip", "probe_taproot_retribution_restored_with_several_htlcs"],
+                         "probe_retribution_store_round_trip", "probe_taproot_retribution_restored_with_several_htlcs",
+                         "fault_revocation_persisted_between_watcher_reads", "probe_watcher_race_judged_breach", "probe_watcher_race_judged_current_state"],
         real_vs_stub={"lnwallet channel state machine, revocation log, shachain store": "real (chansim)",
                       "contractcourt.chainWatcher.handleCommitSpend": "real, called directly (no notifier goroutines)",
                       "breach arbitrator: newRetributionInfo, createJusticeTx, convertToSecondLevelRevoke, breachedOutput.CraftInputScript": "real",
